@@ -26,7 +26,11 @@ ASSUMPTIONS = ['reference codec lib/refmidi.py written from the MIDI 1.0 tables 
 # the separator without escaping it)
 CONTAINERS = ('list', 'tuple', 'bytes', 'bytearray', 'bin', 'hex', 'hexsep', 'hexsep2', 'hexsep3', 'hexnosep',
               'hexsepx:.', 'hexsepx:|', 'hexsepx:+', 'hexsepx:*', 'hexsepx:?', 'hexsepx:$', 'hexsepx:^', 'hexsepx:(',
-              'hexsepx:[', 'hexsepx:\\', 'hexsepx: | ', 'hexsepx:..', 'hexsepx:{2}', 'hexsepx:)(')
+              'hexsepx:[', 'hexsepx:\\', 'hexsepx: | ', 'hexsepx:..', 'hexsepx:{2}', 'hexsepx:)(',
+              # 'hexws:<ws>': written with a white-space separator, read WITHOUT sep= - from_hex treats every white-space
+              # character (what str.isspace / \\s mean for text) like a space (round 14: only [\\t\\n\\r\\f\\v])
+              'hexws:\n', 'hexws:\t', 'hexws:\r\n', 'hexws:\x0b', 'hexws:\x0c', 'hexws:\x1c', 'hexws:\x1f', 'hexws:\x85',
+              'hexws:\xa0', 'hexws:\u2003', 'hexws:\u2028', 'hexws:\u3000', 'hexws: \n ')
 
 
 def _conv(kind, b):
@@ -104,6 +108,8 @@ def check_msg(d, conts, t2, data_as='list'):
                 r = mido.Message.from_hex(m.hex(sep=''), time=t2)
             elif c.startswith('hexsepx:'):
                 r = mido.Message.from_hex(m.hex(sep=c[8:]), time=t2, sep=c[8:])
+            elif c.startswith('hexws:'):
+                r = mido.Message.from_hex(m.hex(sep=c[6:]), time=t2)
             else:
                 r = mido.Message.from_bytes(_conv(c, got), time=t2)
         except Exception as exc:  # noqa: BLE001
